@@ -152,7 +152,7 @@ Definition is_connected (r : reg) (p : pid) : option peer :=
    connection c:  if isConnected(id) { return that peer }  ...handshake...
    exists := addPeer(conn, pe); if exists { if _, registered := getPeer(id); !registered { return
    ErrPeerNotFound } }; return *pe.   Second component: the peer Connect returns (None = error).
-   [checks]: the getPeer test is there (commit db8f6a6). *)
+   [checks]: the getPeer test is there (commit ad08637). *)
 Definition connect_with (checks : bool) (r : reg) (c : conn) (pe : peer) (closed : bool)
   : reg * option peer :=
   match is_connected r (remote c) with
@@ -162,7 +162,7 @@ Definition connect_with (checks : bool) (r : reg) (c : conn) (pe : peer) (closed
       if checks && exists_ && negb (has (remote c) (overlays r')) then (r', None) else (r', Some pe)
   end.
 Definition connect := connect_with Generated.c14_connect_checks_registered.
-(* before db8f6a6: the peer was returned whatever addPeer had answered *)
+(* before ad08637: the peer was returned whatever addPeer had answered *)
 Definition connect_v2 := connect_with false.
 Definition get_peer_id (r : reg) (a : addr) : option pid := get a (underlays r).
 
